@@ -63,7 +63,7 @@ pub fn build_stale(plan: &Plan, target: usize, p: Perturb, entry: Entry) -> Resu
             let mut b = NativeRecordDefinitionBuilder::new(HostTypeResolver);
             for req in &plan.reqs {
                 match req {
-                    Req::Add { ty, uninit } => {
+                    Req::Add { ty, uninit, .. } => {
                         let i = ids.len();
                         let e = type_entry(ty);
                         let o = if i == target {
